@@ -38,6 +38,7 @@ lazy_static! {
     static ref CTL: Mutex<Option<Ctl>> = Mutex::new(None);
     // (calls left before the failing one, errno)
     static ref OPEN_PLAN: Mutex<Option<(u32, i32)>> = Mutex::new(None);
+    static ref CTL_PATH: Mutex<Option<String>> = Mutex::new(None);
 }
 
 pub fn install_sim(sim: Box<dyn SimKernel>) {
@@ -89,6 +90,7 @@ pub fn init() {
         }
         let clock = std::env::var("CICADA_VERIF_CLOCK").map_or(false, |x| x == "1");
         *CTL.lock().unwrap() = Some(Ctl { fd: hi, clock });
+        *CTL_PATH.lock().unwrap() = Some(path.clone());
         // children started by the shell must not inherit the address
         std::env::remove_var("CICADA_VERIF_CTL");
         let msg = format!("hello {} {}", libc::getpid(), libc::getpgid(0));
@@ -209,14 +211,18 @@ where
     if let Some(e) = injected_errno(&reply) {
         return Err(nix::Error::from_raw(e));
     }
+    let park_child = reply.split_whitespace().any(|w| w == "childpark");
     let r = real();
     match &r {
         Ok(ForkResult::Child) => {
-            // children never talk to the simulator
+            // children never talk to the simulator on the shell's channel
             if let Ok(mut g) = CTL.lock() {
                 if let Some(c) = g.take() {
                     unsafe { libc::close(c.fd) };
                 }
+            }
+            if park_child {
+                child_park();
             }
         }
         Ok(ForkResult::Parent { child }) => {
@@ -227,6 +233,49 @@ where
         }
     }
     r
+}
+
+/// The freshly forked child announces itself on a connection of its own and
+/// waits to be released, so that the simulator decides whether the child or
+/// the parent runs first after a fork.
+fn child_park() {
+    let path = match CTL_PATH.lock().ok().and_then(|g| g.clone()) {
+        Some(p) => p,
+        None => return,
+    };
+    unsafe {
+        let fd = libc::socket(libc::AF_UNIX, libc::SOCK_STREAM | libc::SOCK_CLOEXEC, 0);
+        if fd < 0 {
+            return;
+        }
+        let mut addr: libc::sockaddr_un = std::mem::zeroed();
+        addr.sun_family = libc::AF_UNIX as libc::sa_family_t;
+        for (i, b) in path.as_bytes().iter().enumerate() {
+            if i + 1 >= addr.sun_path.len() {
+                break;
+            }
+            addr.sun_path[i] = *b as libc::c_char;
+        }
+        let len = std::mem::size_of::<libc::sockaddr_un>() as libc::socklen_t;
+        if libc::connect(fd, &addr as *const _ as *const libc::sockaddr, len) == 0 {
+            let msg = format!("child {}\n", libc::getpid());
+            libc::send(fd, msg.as_ptr() as *const libc::c_void, msg.len(), libc::MSG_NOSIGNAL);
+            let mut b = [0u8; 1];
+            loop {
+                let n = libc::recv(fd, b.as_mut_ptr() as *mut libc::c_void, 1, 0);
+                if n <= 0 {
+                    if n < 0 && errno::errno().0 == libc::EINTR {
+                        continue;
+                    }
+                    break;
+                }
+                if b[0] == b'\n' {
+                    break;
+                }
+            }
+        }
+        libc::close(fd);
+    }
 }
 
 // ---- H4: waitpid ---------------------------------------------------------
